@@ -160,7 +160,7 @@ def run(pid, tier, seed, replay, mode):
         "harness/circuits.py: mapping deeprob objects -> model table (exact rationals of the float parameters); independent closed-form densities for Gaussian/Uniform/Isotonic at the run's test points",
         "float32 rounding absorbed by tolerance |impl-model| <= 2e-4*model + 1e-9 evaluated inside Coq",
         "scipy.stats pmf/pdf values of the leaves (tied per row, not proved); that continuous densities integrate to one (assumed)"]
-    ncirc = (60 if tier == "quick" else 600)
+    ncirc = (60 if tier == "quick" else 1500)
     cases = []
     dist = dict(kinds={}, vars={}, nodes=0, rows=0, clt_leaves=0, missing_cells={})
     corpus_dir = os.path.join(C.ROOT, "corpus", pid)
